@@ -266,11 +266,12 @@ func (p *Prog) resolveRole(role string) (*ssa.Function, error) {
 	case "executor":
 		// contains reflect.Value.Call on a value loaded from Func.<fn field>
 		fnField := p.FuncFnField()
-		var c []*ssa.Function
+		var c, callers []*ssa.Function
 		for _, f := range arg {
 			for _, call := range Calls(f, RVCall) {
 				if fr, ok := AsFieldLoad(call.Common().Args[0]); ok && fr.Owner == "Func" && fr.Field == fnField {
 					c = append(c, f)
+					callers = append(callers, f)
 				}
 			}
 			// … and memoises a Result on the Func (the run-once memo)
@@ -282,7 +283,12 @@ func (p *Prog) resolveRole(role string) (*ssa.Function, error) {
 				}
 			})
 		}
-		return one(role, c)
+		if f, err := one(role, c); err == nil {
+			return f, nil
+		}
+		// the memo is (also) written somewhere else: the executor is still the function that calls the user's
+		// function; the foreign write is for the SHARED/ONCE rules to report, not a reason to lose the role
+		return one(role, callers)
 
 	case "resolver":
 		// executes converters (calls the executor without being the exported Call); plans paths (shortest-path search)
@@ -312,7 +318,7 @@ func (p *Prog) resolveRole(role string) (*ssa.Function, error) {
 
 	case "graphBuilder":
 		// prunes the graph (Remove); drives the input builder
-		var c []*ssa.Function
+		var c, drivers []*ssa.Function
 		ib, _ := p.Role("inputBuilder")
 		for _, f := range arg {
 			if len(p.RCalls(f, GRemove)) > 0 {
@@ -320,9 +326,15 @@ func (p *Prog) resolveRole(role string) (*ssa.Function, error) {
 			}
 			if ib != nil && f != ib && p.callsFn(f, ib) {
 				c = append(c, f)
+				drivers = append(drivers, f)
 			}
 		}
-		return one(role, c)
+		if f, err := one(role, c); err == nil {
+			return f, nil
+		}
+		// some other function removes vertices as well: the graph builder is still the one that drives the input
+		// builder; what the other function does to the graph is for the rules to judge
+		return one(role, drivers)
 
 	case "inputBuilder":
 		var c []*ssa.Function
